@@ -2,13 +2,17 @@
 
 1. TLC checks P_C03 (the wire sozu writes has exactly one strict reading, and it is what sozu understood)
    and P_C03_Rfc (sozu's outcome is one of the RFC-admissible ones) on every case of the token grammar,
-   with no deviation.
+   with no deviation. Every case carries a METHOD token (GET HEAD POST CONNECT OPTIONS, an extension method, a
+   lower-case spelling): the slices over every header token are sent with POST, the method slices cross every method
+   with the request-target forms / pseudo-header shapes, the framing-relevant Content-Length / Transfer-Encoding
+   tokens, every DATA shape and trailer shapes.
 2. Sensitivity: every deviation switch of the spec (= how the code behaved before the fix: commits, or still
    behaves for open findings) is switched on alone and TLC must produce a counterexample.
 3. Generator run: one REPLAY line per case with the admissible relation and the prediction (open deviations on).
 4. harness/replay_framing concretises every case (several spellings per token, seeded segmentation, pipelined
    or sequential sentinel) and sends it to a live H1 / TLS+H2 frontend of a real worker; recording backends
-   log raw bytes; the harness's strict RFC 9112 reader (or its h2c frame reader) computes what a conforming
+   log raw bytes (they answer HEAD from the head and keep the connection, refuse CONNECT with 405; an H2 probe is
+   followed by a late request that sozu writes on the backend connection the probe used); the harness's strict RFC 9112 reader (or its h2c frame reader) computes what a conforming
    backend reads; the result must be admissible.
 """
 import json
@@ -19,7 +23,11 @@ import vlib
 
 PID = "C03"
 ALL_DEVIATIONS = ["NoLenUntilClose", "ClPlus", "TeLenient", "LenientName",
-                  "H2DupCl", "H2PathSpace", "TrailerAfterCl", "TrailerNoLastChunk"]
+                  "H2DupCl", "H2PathSpace", "TrailerAfterCl", "TrailerNoLastChunk",
+                  # method dimension: a HEAD *request* exempted from the content-length vs DATA reconciliation (a defect
+                  # class, never the code's behaviour); an HTTP/2 CONNECT with :scheme/:path forwarded as an ordinary
+                  # request (the code's behaviour before fix: commit 2577ced)
+                  "HeadRequestExempt", "H2ConnectOrdinary"]
 
 CFG = """SPECIFICATION Spec
 CONSTANTS
@@ -160,7 +168,8 @@ def run(tier, replay=None):
     rep.cov["exhaustive"] = True
     rep.cov["rule"] = ("every case of spec/HttpFraming.tla's token grammar with <= %d free header tokens (H1: 8 request-line "
                        "shapes x 6 Host shapes x header-token sequences x 5 chunked-body shapes; H2: 18 pseudo-header shapes x "
-                       "header-token sequences x 5 DATA shapes x 7 trailer shapes), each concretised with seeded spellings / "
+                       "header-token sequences x 5 DATA shapes x 7 trailer shapes; method slices: 7 method tokens x request-target "
+                       "forms / pseudo-header shapes x framing-relevant tokens x DATA x trailer shapes), each concretised with seeded spellings / "
                        "segmentation / pipelined-or-sequential sentinel and sent to a live frontend of a real worker; "
                        "distinct_nontrivial = distinct (case, observed outcome class) pairs whose case differs from the plain valid "
                        "skeleton in at least one token" % n)
